@@ -354,6 +354,13 @@ def check_virtual(case, rec):
         got = numpy.asarray(ev.eval_once(ev.derivative(ev.Sum(W * W), y), arguments=args))
         if not numpy.allclose(got, 2 * numpy.sin(yv) @ numpy.diag(cv)):
             raise Violation('derivative-mismatch', f'derivative(sum(W*W), y) with W = WithDerivative(sin(y), y, D): {got.tolist()} != 2 sin(y) D', where='virtual:own-target-product')
+        # the wrapped function used on its own elsewhere in the same expression keeps its own derivative, whichever of the two is visited first
+        f = ev.sin(y); Dd = numpy.diag(cv); fv = numpy.sin(yv); own = numpy.diag(numpy.cos(yv))
+        for name, expr, wantm in (('W + f*f', W + f * f, Dd + numpy.diag(2 * fv) @ own), ('f*f + W', f * f + W, Dd + numpy.diag(2 * fv) @ own),
+                                  ('W * exp(f)', W * ev.exp(f), numpy.diag(numpy.exp(fv)) @ Dd + numpy.diag(fv * numpy.exp(fv)) @ own)):
+            got = numpy.asarray(ev.eval_once(ev.derivative(expr, y), arguments=args))
+            if got.shape != wantm.shape or not numpy.allclose(got, wantm, rtol=1e-10, atol=1e-12):
+                raise Violation('derivative-mismatch', f'derivative({name}, y) with f = sin(y), W = WithDerivative(f, y, D): {got.tolist()} != {wantm.tolist()} (the bare f has its own derivative cos(y))', where='virtual:wrapped-and-bare')
         rec.label('virtual:own-target')
     rec.nontrivial = True
     rec.label('virtual:' + G, 'virtual:f0=' + case['f0'], 'virtual:D=' + case['D'])
